@@ -19,6 +19,9 @@ uint32_t vg_hcrc_of(const struct jls_chunk_header_s * h);
 
 extern uint32_t vg_k;                  /* skolem witness: an arbitrary payload byte index */
 /* ghost captures on entry */
+/* the 16 identification bytes of the file header, copied from the table in the format description (format.h: 'jlsfmt\r\n \n \x1a  \xb2\x1c') */
+static const uint8_t vg_file_id[16] = {0x6a, 0x6c, 0x73, 0x66, 0x6d, 0x74, 0x0d, 0x0a, 0x20, 0x0a, 0x20, 0x1a, 0x20, 0x20, 0xb2, 0x1c};
+extern size_t vg_mem_i;                /* witness index of the memcmp/memcpy model (stubs/mem_model.c) */
 extern uint32_t vg_k2;                 /* second skolem witness index */
 
 /* little-endian image of a header field byte k (0..31), written from format.h: item_next, item_prev, tag, rsv, chunk_meta,
